@@ -333,6 +333,22 @@ def api_sync_properties(case, d):
         except BaseException as e:
             if isinstance(e, (core.CaseTimeout, KeyboardInterrupt)):
                 raise
+    # input names the static lookup cannot resolve (bound by tuple unpacking, a chained or augmented assignment, under
+    # `if` / `try`, as an import alias, or not at all): without --input-eval the answer must be a refusal, never a look at
+    # the module's run-time values
+    i2 = J(case, d, "i2.py")
+    open(i2, "w").write(
+        class_src(case)
+        + "\nMODES, LEVELS = ('a', 'b'), (1, 2)\nM = N = 3\nif MODES:\n    UNDER_IF = ('x', 'y')\ntry:\n    UNDER_TRY = ('p',)\nexcept Exception:\n    UNDER_TRY = ()\n"
+        + "COUNT = 0\nCOUNT += 1\nimport os.path as ALIAS\nfor LOOPVAR in (1, 2):\n    pass\n"
+    )
+    for ip in ("MODES", "N", "UNDER_IF", "UNDER_TRY", "COUNT", "ALIAS", "LOOPVAR", "nowhere"):
+        for wrap in (None, "Optional[{output_param}]"):
+            try:
+                cdd.compound.sync_properties.sync_properties(input_eval=False, input_filename=i2, input_params=[ip], output_filename=o, output_params=["Target.a"], output_param_wrap=wrap)
+            except BaseException as e:
+                if isinstance(e, (core.CaseTimeout, KeyboardInterrupt)):
+                    raise
     return {o}
 
 
